@@ -44,3 +44,265 @@ theorem take_leBytes (n k m : Nat) (h : k ≤ m) : (leBytes n k).take m = leByte
   apply List.take_of_length_le; rw [length_leBytes]; exact h
 
 end CCV.Bytes
+
+namespace CCV.Bytes
+
+/-! ### chunking of concatenated fixed-size records -/
+
+theorem chunksExact_flatMap {α : Type} (k : Nat) (f : α → List Nat) (xs : List α)
+    (hf : ∀ x ∈ xs, (f x).length = k) :
+    chunksExact k xs.length (xs.flatMap f) = xs.map f := by
+  induction xs with
+  | nil => rfl
+  | cons a t ih =>
+    have ha : (f a).length = k := hf a (by simp)
+    simp only [List.length_cons, chunksExact, List.flatMap_cons, List.map_cons]
+    rw [List.take_left' ha, List.drop_left' ha, ih (fun x hx => hf x (by simp [hx]))]
+
+theorem length_flatMap_const {α : Type} (k : Nat) (f : α → List Nat) (xs : List α)
+    (hf : ∀ x ∈ xs, (f x).length = k) :
+    (xs.flatMap f).length = xs.length * k := by
+  induction xs with
+  | nil => simp
+  | cons a t ih =>
+    simp only [List.flatMap_cons, List.length_append, List.length_cons]
+    rw [ih (fun x hx => hf x (by simp [hx])), hf a (by simp), Nat.succ_mul]; omega
+
+theorem mem_flatMap_lt {α : Type} (f : α → List Nat) (xs : List α)
+    (hf : ∀ x ∈ xs, ∀ b ∈ f x, b < 256) : ∀ b ∈ xs.flatMap f, b < 256 := by
+  intro b hb
+  rcases List.mem_flatMap.1 hb with ⟨x, hx, hbx⟩
+  exact hf x hx b hbx
+
+theorem byteLen_pos (st : ST) : 0 < st.byteLen := by cases st <;> decide
+
+theorem vecFromBytesW_ne_bit (w : Nat) (st : ST) (h : st ≠ .bit) (bytes : List Nat) :
+    vecFromBytesW w st bytes =
+      if bytes.length % st.byteLen != 0 then .error "Incompatible vector and scalar type"
+      else .ok ((chunksExact st.byteLen (bytes.length / st.byteLen) bytes).map
+        (fun c => signPad w st (fromLE (c.take (w / 8))))) := by
+  cases st <;> first | exact absurd rfl h | rfl
+
+theorem vecToBytes_ne_bit (st : ST) (h : st ≠ .bit) (xs : List Int) :
+    vecToBytes st xs = .ok (xs.flatMap (fun x => leBytes (asU128 x) st.byteLen)) := by
+  cases st <;> first | exact absurd rfl h | rfl
+
+/-- reading back concatenated chunks of `byteLen` bytes each -/
+theorem vecFromBytesW_flatMap {α : Type} (w : Nat) (st : ST) (h : st ≠ .bit) (f : α → List Nat)
+    (xs : List α) (hf : ∀ x ∈ xs, (f x).length = st.byteLen) :
+    vecFromBytesW w st (xs.flatMap f)
+      = .ok (xs.map fun x => signPad w st (fromLE ((f x).take (w / 8)))) := by
+  have hl := length_flatMap_const st.byteLen f xs hf
+  have hpos := byteLen_pos st
+  have hm : (xs.flatMap f).length % st.byteLen = 0 := by rw [hl]; exact Nat.mul_mod_left _ _
+  have hd : (xs.flatMap f).length / st.byteLen = xs.length := by
+    rw [hl]; exact Nat.mul_div_cancel _ hpos
+  rw [vecFromBytesW_ne_bit w st h, hm, hd, chunksExact_flatMap _ f xs hf]
+  simp [List.map_map, Function.comp_def]
+
+end CCV.Bytes
+
+namespace CCV.Bytes
+
+theorem take_leBytes' (n k m : Nat) : (leBytes n k).take m = leBytes n (min m k) := by
+  induction k generalizing n m with
+  | zero => simp [leBytes]
+  | succ k ih =>
+    cases m with
+    | zero => simp [leBytes]
+    | succ m =>
+      simp only [leBytes, List.take_succ_cons, ih]
+      rw [Nat.succ_min_succ]; simp [leBytes]
+
+end CCV.Bytes
+
+/-! ### bit packing -/
+
+namespace CCV.Bytes
+
+/-- `k` low bits of `n`, LSB first -/
+def unpackN : Nat → Nat → List Nat
+  | _, 0 => []
+  | n, k + 1 => n % 2 :: unpackN (n / 2) k
+
+theorem unpackByte_eq (b : Nat) : unpackByte b = unpackN b 8 := by
+  simp [unpackByte, unpackN, Nat.div_div_eq_div_mul]
+
+theorem unpackN_zero (k : Nat) : unpackN 0 k = List.replicate k 0 := by
+  induction k with
+  | zero => rfl
+  | succ k ih => simp [unpackN, ih, List.replicate_succ]
+
+theorem unpackN_packBits (c : List Nat) (hc : ∀ y ∈ c, y ≤ 1) (k : Nat) (hk : c.length ≤ k) :
+    unpackN (packBits c) k = c ++ List.replicate (k - c.length) 0 := by
+  induction c generalizing k with
+  | nil => simp [packBits, unpackN_zero]
+  | cons a t ih =>
+    cases k with
+    | zero => simp at hk
+    | succ k =>
+      have ha : a ≤ 1 := hc a (by simp)
+      have h1 : (a + 2 * packBits t) % 2 = a := by omega
+      have h2 : (a + 2 * packBits t) / 2 = packBits t := by omega
+      simp only [packBits, unpackN, h1, h2, List.cons_append, List.length_cons]
+      rw [ih (fun y hy => hc y (by simp [hy])) k (by simpa using hk)]
+      simp
+
+theorem packBits_lt (c : List Nat) (hc : ∀ y ∈ c, y ≤ 1) : packBits c < 2 ^ c.length := by
+  induction c with
+  | nil => simp [packBits]
+  | cons a t ih =>
+    have ha : a ≤ 1 := hc a (by simp)
+    have := ih (fun y hy => hc y (by simp [hy]))
+    simp only [packBits, List.length_cons, Nat.pow_succ]
+    omega
+
+theorem chunks8_nil {α : Type} : chunks8 ([] : List α) = [] := by
+  rw [chunks8]; simp
+
+theorem chunks8_ne_nil {α : Type} (xs : List α) (h : xs ≠ []) :
+    chunks8 xs = xs.take 8 :: chunks8 (xs.drop 8) := by
+  rw [chunks8]; simp [h]
+
+theorem chunks8_map {α β : Type} (f : α → β) (xs : List α) :
+    chunks8 (xs.map f) = (chunks8 xs).map (List.map f) := by
+  fun_induction chunks8 xs with
+  | case1 => simp [chunks8_nil]
+  | case2 xs h ih =>
+    rw [chunks8_ne_nil _ (by simpa using h), List.map_cons, ← List.map_take, ← List.map_drop, ih]
+
+theorem length_chunks8 {α : Type} (xs : List α) : (chunks8 xs).length = (xs.length + 7) / 8 := by
+  fun_induction chunks8 xs with
+  | case1 => simp
+  | case2 xs h ih =>
+    have : 0 < xs.length := List.length_pos_iff.2 h
+    simp only [List.length_cons, ih, List.length_drop]; omega
+
+theorem mem_chunks8 {α : Type} (xs : List α) : ∀ c ∈ chunks8 xs, c.length ≤ 8 ∧ ∀ y ∈ c, y ∈ xs := by
+  fun_induction chunks8 xs with
+  | case1 => simp
+  | case2 xs h ih =>
+    intro c hc
+    rcases List.mem_cons.1 hc with rfl | hc
+    · exact ⟨by simp [List.length_take]; omega, fun y hy => List.mem_of_mem_take hy⟩
+    · exact ⟨(ih c hc).1, fun y hy => List.mem_of_mem_drop ((ih c hc).2 y hy)⟩
+
+/-- unpacking the packed chunks gives the bits back, followed by zero stray bits -/
+theorem unpack_pack_chunks8 (ys : List Nat) (hy : ∀ y ∈ ys, y ≤ 1) :
+    ((chunks8 ys).map packBits).flatMap unpackByte
+      = ys ++ List.replicate (8 * (chunks8 ys).length - ys.length) 0 := by
+  fun_induction chunks8 ys with
+  | case1 => simp
+  | case2 ys h ih =>
+    have ih := ih (fun y hy' => hy y (List.mem_of_mem_drop hy'))
+    have hpos : 0 < ys.length := List.length_pos_iff.2 h
+    simp only [List.map_cons, List.flatMap_cons, List.length_cons]
+    rw [ih, unpackByte_eq, unpackN_packBits _ (fun y hy' => hy y (List.mem_of_mem_take hy')) 8
+      (by simp [List.length_take]; omega)]
+    by_cases h8 : 8 ≤ ys.length
+    · have e1 : 8 - (List.take 8 ys).length = 0 := by simp [List.length_take]; omega
+      have e2 : 8 * (chunks8 (List.drop 8 ys)).length - (List.drop 8 ys).length
+          = 8 * ((chunks8 (List.drop 8 ys)).length + 1) - ys.length := by
+        simp [List.length_drop]; omega
+      rw [e1, e2]; simp [← List.append_assoc]
+    · have hd : List.drop 8 ys = [] := List.drop_eq_nil_of_le (by omega)
+      have ht : List.take 8 ys = ys := List.take_of_length_le (by omega)
+      rw [hd, ht, chunks8_nil]; simp
+
+end CCV.Bytes
+namespace CCV.Bytes
+theorem all_isBit_iff (xs : List Int) : xs.all isBit = true ↔ ∀ x ∈ xs, x = 0 ∨ x = 1 := by
+  simp [isBit, List.all_eq_true]
+
+theorem bitsToBytes_ok (xs : List Int) (h : ∀ x ∈ xs, x = 0 ∨ x = 1) :
+    bitsToBytes xs = .ok ((chunks8 (xs.map Int.toNat)).map packBits) := by
+  rw [bitsToBytes, if_pos ((all_isBit_iff xs).2 h), chunks8_map, List.map_map]; rfl
+
+theorem toNat_bit_le (xs : List Int) (h : ∀ x ∈ xs, x = 0 ∨ x = 1) : ∀ y ∈ xs.map Int.toNat, y ≤ 1 := by
+  intro y hy
+  rcases List.mem_map.1 hy with ⟨x, hx, rfl⟩
+  rcases h x hx with rfl | rfl <;> decide
+end CCV.Bytes
+
+
+/-! ### layout -/
+
+namespace CCV.Bytes
+theorem bits_eq_byteLen (st : ST) (h : st ≠ .bit) : st.bits = 8 * st.byteLen := by
+  cases st <;> first | exact absurd rfl h | rfl
+
+theorem vecFromBytesW_ok_iff (w : Nat) (st : ST) (bs : List Nat) :
+    (∃ r, vecFromBytesW w st bs = .ok r) ↔ bs.length % st.byteLen = 0 := by
+  by_cases h : st = .bit
+  · subst h; simp [vecFromBytesW, ST.byteLen, ST.bits, Nat.mod_one]
+  · rw [vecFromBytesW_ne_bit w st h]
+    by_cases hm : bs.length % st.byteLen = 0
+    · simp [hm]
+    · simp [hm]
+end CCV.Bytes
+
+/-! ### the u64 writer -/
+
+namespace CCV.Bytes
+
+theorem leBytes_congr (n m k : Nat) (h : n % 256 ^ k = m % 256 ^ k) : leBytes n k = leBytes m k := by
+  induction k generalizing n m with
+  | zero => rfl
+  | succ k ih =>
+    rw [Nat.pow_succ, Nat.mul_comm, Nat.mod_mul, Nat.mod_mul] at h
+    have h1 : n % 256 = m % 256 := by omega
+    have h2 : n / 256 % 256 ^ k = m / 256 % 256 ^ k := by omega
+    simp only [leBytes, h1, ih _ _ h2]
+
+theorem leBytes_add (n a b : Nat) : leBytes n (a + b) = leBytes n a ++ leBytes (n / 256 ^ a) b := by
+  induction a generalizing n with
+  | zero => simp [leBytes]
+  | succ a ih =>
+    rw [Nat.succ_add]
+    simp only [leBytes, ih, List.cons_append]
+    rw [Nat.pow_succ, Nat.mul_comm, Nat.div_div_eq_div_mul]
+
+theorem asU64_eq (x : Int) : asU64 x = asU128 x % 2 ^ 64 := by
+  simp only [asU64, asU128]; omega
+
+theorem elemU64_le8 (bl : Nat) (h : bl ≤ 8) (x : Int) :
+    elemU64ToBytes bl x = leBytes (asU128 x) bl := by
+  have h1 : min bl 8 = bl := Nat.min_eq_left h
+  have h2 : bl - 8 = 0 := by omega
+  simp only [elemU64ToBytes, h1, h2, List.replicate_zero, List.append_nil]
+  apply leBytes_congr
+  rw [asU64_eq]
+  have : (2 : Nat) ^ 64 = 256 ^ 8 := by decide
+  rw [this]
+  exact Nat.mod_mod_of_dvd _ (Nat.pow_dvd_pow 256 h)
+
+theorem elemU64_16 (x : Int)
+    (h : (0 ≤ x ∧ x < 2 ^ 64) ∨ (-(2 ^ 64) ≤ x ∧ x < 0) ∨ (2 ^ 128 - 2 ^ 64 ≤ x ∧ x < 2 ^ 128)) :
+    elemU64ToBytes 16 x = leBytes (asU128 x) 16 := by
+  have e : leBytes (asU128 x) 16 = leBytes (asU128 x) 8 ++ leBytes (asU128 x / 256 ^ 8) 8 :=
+    leBytes_add _ 8 8
+  have e1 : leBytes (asU64 x) 8 = leBytes (asU128 x) 8 := by
+    apply leBytes_congr; rw [asU64_eq]; omega
+  have e0 : elemU64ToBytes 16 x = leBytes (asU64 x) 8 ++
+      List.replicate 8 (if decide (0 ≤ x) && decide (x < (2 ^ 64 : Int)) then 0 else 255) := rfl
+  rw [e, e0, e1]
+  congr 1
+  by_cases hx : 0 ≤ x ∧ x < 2 ^ 64
+  · have : asU128 x / 256 ^ 8 = 0 := by simp only [asU128]; omega
+    have hp : (decide (0 ≤ x) && decide (x < 2 ^ 64)) = true := by
+      simp; omega
+    rw [this, hp]; decide
+  · have : asU128 x / 256 ^ 8 = 2 ^ 64 - 1 := by simp only [asU128]; omega
+    have hp : (decide (0 ≤ x) && decide (x < 2 ^ 64)) = false := by
+      simp; omega
+    rw [this, hp]; decide
+end CCV.Bytes
+namespace CCV.Bytes
+theorem flatMap_congr' {α β : Type} (f g : α → List β) (xs : List α) (h : ∀ x ∈ xs, f x = g x) :
+    xs.flatMap f = xs.flatMap g := by
+  induction xs with
+  | nil => rfl
+  | cons a t ih =>
+    simp only [List.flatMap_cons]
+    rw [h a (by simp), ih (fun x hx => h x (by simp [hx]))]
+end CCV.Bytes
